@@ -243,11 +243,16 @@ def precalc_zone(P):
         if tail_start._is_valid:
             assume(t < _tot(tail_start))
         iv = z.get_zone_interval(Instant._ctor(days=d, nano_of_day=n))
-        idx = 0
-        for i in range(1, len(periods)):
-            if t >= starts[i]:
+        idx = -1
+        for i, p in enumerate(periods):            # identity search: no symbolic comparison
+            if p is iv:
                 idx = i
-        return iv is periods[idx]
+        if idx < 0:
+            return False
+        # the period returned is the one whose [start, next start) holds the instant (starts are strictly increasing: checked above)
+        lo_ok = idx == 0 or t >= starts[idx]
+        hi_ok = idx + 1 == len(periods) or t < starts[idx + 1]
+        return lo_ok and hi_ok
     return h
 
 
